@@ -265,6 +265,22 @@ EncX(sc, t, v, perms, rd) ==
                       ELSE JObj((TagKey :> JTagStr(v.tag)) @@ (v.tag :> EncMember(sc, tg, v.v, perms, rd)))
 Enc(sc, t, v, perms) == EncX(sc, t, v, perms, FALSE)
 
+\* json_serializer.rst "Nullable": a nullable struct member whose struct has
+\* no field set is indistinguishable from null; "the deserializer should
+\* return a null".  Canon applies exactly that identification.
+RECURSIVE Canon(_, _)
+Canon(sc, v) ==
+    CASE v.k = "list"   -> VList([i \in DOMAIN v.items |-> Canon(sc, v.items[i])])
+      [] v.k = "map"    -> VMap([key \in DOMAIN v.m |-> Canon(sc, v.m[key])])
+      [] v.k = "struct" -> VStruct(v.c, [n \in DOMAIN v.f |-> Canon(sc, v.f[n])])
+      [] v.k = "union"  ->
+           LET tg == TagByName(sc, v.c, v.tag) IN
+           IF IsNullable(sc, tg.t) /\ v.v.k = "struct" /\ IsPlainStruct(sc, Under(sc, tg.t))
+              /\ EncFields(sc, v.v.c, v.v.f, {}, FALSE) = [x \in {} |-> JNull]
+           THEN VUnion(v.c, v.tag, VNone)
+           ELSE VUnion(v.c, v.tag, Canon(sc, v.v))
+      [] OTHER          -> v
+
 RECURSIVE HasEncErr(_)
 HasEncErr(d) ==
     CASE d.k = "encerr" -> TRUE
